@@ -3,26 +3,31 @@
 // Harness for C08 (fail closed).  Every case is a small WORLD (Policies, Secrets, App Protect
 // resources, one VirtualServer with at most one VirtualServerRoute, or one Ingress / master+minion)
 // that is pushed through the REAL pipeline:
-//   real Configuration (validation + attachment of VirtualServerRoutes / minions)
-//   -> real createVirtualServerEx / createIngressEx / createMergeableIngresses
-//      (getPolicies, add*SecretRefs, addWAFPolicyRefs over the real LocalSecretStore and the real
-//       App Protect configuration)
-//   -> real Configurator.AddOrUpdateVirtualServer / AddOrUpdateIngress / AddOrUpdateMergeableIngress
-//      with the real template files, over a recording nginx.Manager.
+//
+//	real Configuration (validation + attachment of VirtualServerRoutes / minions)
+//	-> real createVirtualServerEx / createIngressEx / createMergeableIngresses
+//	   (getPolicies, add*SecretRefs, addWAFPolicyRefs over the real LocalSecretStore and the real
+//	    App Protect configuration)
+//	-> real Configurator.AddOrUpdateVirtualServer / AddOrUpdateIngress / AddOrUpdateMergeableIngress
+//	   with the real template files, over a recording nginx.Manager.
+//
 // Observables: the rendered bytes (for S) and, per scope, whether the template data carries
 // PoliciesErrorReturn and which policy additions it carries (for X), read from the data structure
 // that GenerateVirtualServerConfig / generateNginxCfg returned.
 //
 // Streams:  product  the exhaustive product kind x scope x failure mode x position x edition
-//           vstls    VirtualServer host x every TLS secret state x edition
-//           ing      Ingress regular / master(+minion) x TLS secret state, JWT / basic-auth secret state
-//           random   longer random policy lists in every scope
+//
+//	vstls    VirtualServer host x every TLS secret state x edition
+//	ing      Ingress regular / master(+minion) x TLS secret state, JWT / basic-auth secret state
+//	random   longer random policy lists in every scope
 package main
 
 import (
 	"bytes"
 	"context"
 	"fmt"
+	"io"
+	"log/slog"
 	"os"
 	"path/filepath"
 	"sort"
@@ -38,6 +43,7 @@ import (
 	"github.com/nginx/kubernetes-ingress/internal/configs/version2"
 	"github.com/nginx/kubernetes-ingress/internal/k8s"
 	"github.com/nginx/kubernetes-ingress/internal/k8s/secrets"
+	nl "github.com/nginx/kubernetes-ingress/internal/logger"
 	"github.com/nginx/kubernetes-ingress/internal/nginx"
 	"github.com/nginx/kubernetes-ingress/internal/verifh/vh"
 	conf_v1 "github.com/nginx/kubernetes-ingress/pkg/apis/configuration/v1"
@@ -89,6 +95,7 @@ type SecIn struct {
 	Name    string `json:"name"`
 	Type    string `json:"type"` // tls ca jwk htpasswd oidc apikey opaque
 	Invalid bool   `json:"invalid"`
+	Empty   bool   `json:"empty,omitempty"` // data emptied
 	// History "deleted": the Secret existed (valid or, with Invalid, invalid), was never referenced by
 	// any resource, and was DELETED before the resource of the case arrived.  Driven through the real
 	// LocalSecretStore.AddOrUpdateSecret / DeleteSecret; for the model the Secret does not exist.
@@ -134,6 +141,9 @@ type VSIn struct {
 	Policies []RefIn   `json:"policies"`
 	Routes   []RouteIn `json:"routes"`
 	VSRs     []VSRIn   `json:"vsrs"`
+	// InternalRoute is spec.internalRoute (NGINX Service Mesh): with -enable-internal-routes the server
+	// terminates TLS with the mesh (SPIFFE) certificate
+	InternalRoute bool `json:"internal_route,omitempty"`
 }
 
 type IngIn struct {
@@ -146,6 +156,8 @@ type IngIn struct {
 	JWTKey   string `json:"jwt_key"`
 	Basic    string `json:"basic"`
 	OnMinion bool   `json:"on_minion"` // auth annotations on the minion instead of the ingress/master
+	// InternalRoute is the annotation nsm.nginx.com/internal-route: "true"
+	InternalRoute bool `json:"internal_route,omitempty"`
 }
 
 type Gen struct {
@@ -156,15 +168,16 @@ type Gen struct {
 }
 
 type World struct {
-	Plus     bool    `json:"plus"`
-	Wildcard bool    `json:"wildcard"`
-	Class    string  `json:"class"`
-	Policies []PolIn `json:"policies"`
-	Secrets  []SecIn `json:"secrets"`
-	AP       []APIn  `json:"ap"`
-	Bundles  []string `json:"bundles"`
-	VS       *VSIn   `json:"vs,omitempty"`
-	Ing      *IngIn  `json:"ing,omitempty"`
+	Plus           bool     `json:"plus"`
+	Wildcard       bool     `json:"wildcard"`
+	InternalRoutes bool     `json:"internal_routes,omitempty"` // controller flag -enable-internal-routes
+	Class          string   `json:"class"`
+	Policies       []PolIn  `json:"policies"`
+	Secrets        []SecIn  `json:"secrets"`
+	AP             []APIn   `json:"ap"`
+	Bundles        []string `json:"bundles"`
+	VS             *VSIn    `json:"vs,omitempty"`
+	Ing            *IngIn   `json:"ing,omitempty"`
 }
 
 // ---------------------------------------------------------------- case (observed part)
@@ -199,6 +212,10 @@ type Obs struct {
 	SSL      *SSLObs    `json:"ssl,omitempty"`
 	Auth     []AuthObs  `json:"auth,omitempty"`
 	Server   string     `json:"server,omitempty"`
+	Spiffe   bool       `json:"spiffe,omitempty"`   // template data says SpiffeCerts
+	Stale    bool       `json:"stale,omitempty"`    // history cases: the live file differs from a fresh generation
+	PreOpen  bool       `json:"pre_open,omitempty"` // history cases: before the event nothing failed closed
+	Queued   []int      `json:"queued,omitempty"`   // history cases: tasks queued by the real handler per event
 	File     string     `json:"file,omitempty"`
 	Panic    string     `json:"panic,omitempty"`
 	Error    string     `json:"error,omitempty"`
@@ -211,7 +228,19 @@ type Case struct {
 	Seed  uint64 `json:"seed"`
 	Gen   *Gen   `json:"gen,omitempty"`
 	World World  `json:"world"`
-	Obs   Obs    `json:"obs"`
+	// history cases: Init is the world the resource was first rendered in (everything usable), Event what
+	// then happened to one dependency; World is the resulting cluster state (what the model is given)
+	Init  *World   `json:"init,omitempty"`
+	Event *EventIn `json:"event,omitempty"`
+	Obs   Obs      `json:"obs"`
+}
+
+// EventIn is one change of a dependency after the resource was rendered.
+type EventIn struct {
+	Dep  string `json:"dep"` // policy | secret | appol | aplog
+	NS   string `json:"ns"`
+	Name string `json:"name"`
+	Op   string `json:"op"` // delete | invalid | empty | class | retype:<type>
 }
 
 func ptr[T any](v T) *T { return &v }
@@ -262,6 +291,9 @@ func buildSecret(s SecIn) *api_v1.Secret {
 		}
 	default:
 		sec.Data = map[string][]byte{"x": []byte("y")}
+	}
+	if s.Empty {
+		sec.Data = map[string][]byte{}
 	}
 	return sec
 }
@@ -413,6 +445,7 @@ func nloc(shape string) int {
 func buildVS(in *VSIn) (*conf_v1.VirtualServer, []*conf_v1.VirtualServerRoute) {
 	vs := &conf_v1.VirtualServer{ObjectMeta: meta_v1.ObjectMeta{Name: in.Name, Namespace: in.NS}}
 	vs.Spec.Host = in.Host
+	vs.Spec.InternalRoute = in.InternalRoute
 	if in.TLS {
 		vs.Spec.TLS = &conf_v1.TLS{Secret: in.TLSName}
 	}
@@ -452,6 +485,10 @@ func buildIngresses(in *IngIn) []*networking.Ingress {
 		auth["nginx.org/basic-auth-secret"] = in.Basic
 		auth["nginx.org/basic-auth-realm"] = "realm"
 	}
+	internal := map[string]string{}
+	if in.InternalRoute {
+		internal["nsm.nginx.com/internal-route"] = "true"
+	}
 	mk := func(name string, ann map[string]string, paths []string) *networking.Ingress {
 		ing := &networking.Ingress{ObjectMeta: meta_v1.ObjectMeta{Name: name, Namespace: in.NS, Annotations: ann}}
 		ing.Spec.IngressClassName = ptr("nginx")
@@ -482,11 +519,11 @@ func buildIngresses(in *IngIn) []*networking.Ingress {
 		}
 	}
 	if !in.Master {
-		ing := mk(in.Name, merge(nil, auth), []string{"/a"})
+		ing := mk(in.Name, merge(internal, auth), []string{"/a"})
 		tls(ing)
 		return []*networking.Ingress{ing}
 	}
-	mAnn := map[string]string{"nginx.org/mergeable-ingress-type": "master"}
+	mAnn := merge(internal, map[string]string{"nginx.org/mergeable-ingress-type": "master"})
 	nAnn := map[string]string{"nginx.org/mergeable-ingress-type": "minion"}
 	if in.OnMinion {
 		nAnn = merge(nAnn, auth)
@@ -607,16 +644,11 @@ func serverFlags(s *version2.Server) []string {
 	return f
 }
 
-func runWorld(w *World) (obs Obs) {
-	defer func() {
-		if p := recover(); p != nil {
-			obs.Panic = fmt.Sprint(p)
-		}
-	}()
+// newConfigurator builds the real Configurator over a recording manager.
+func newConfigurator(w *World) (*configs.Configurator, *recMgr, error) {
 	t, err := templates(w.Plus)
 	if err != nil {
-		obs.Error = "templates: " + err.Error()
-		return
+		return nil, nil, err
 	}
 	bd := bundleDir()
 	_ = os.MkdirAll(bd, 0o755)
@@ -631,19 +663,34 @@ func runWorld(w *World) (obs Obs) {
 	if w.Plus {
 		ver = "nginx version: nginx/1.27.2 (nginx-plus-r33)"
 	}
-	ctx := context.Background()
+	ctx := nl.ContextWithLogger(context.Background(), slog.New(slog.NewTextHandler(io.Discard, nil)))
 	cfg := configs.NewDefaultConfigParams(ctx, w.Plus)
 	cfg.HTTP2 = true // gRPC upstreams need it
 	static := &configs.StaticConfigParams{
 		DefaultHTTPListenerPort: 80, DefaultHTTPSListenerPort: 443, StaticSSLPath: "/etc/nginx/secrets",
 		NginxVersion: nginx.NewVersion(ver), AppProtectBundlePath: bd, MainAppProtectLoadModule: w.Plus,
+		EnableInternalRoutes: w.InternalRoutes, InternalRouteServerName: "nic.nginx-ingress.svc",
 	}
 	cnf := configs.NewConfigurator(configs.ConfiguratorParams{
 		NginxManager: mgr, StaticCfgParams: static, Config: cfg, MGMTCfgParams: configs.NewDefaultMGMTConfigParams(ctx),
 		TemplateExecutor: t.te1, TemplateExecutorV2: t.te2, IsPlus: w.Plus, IsWildcardEnabled: w.Wildcard,
 		NginxVersion: nginx.NewVersion(ver),
 	})
-	v := k8s.NewVerifC08(k8s.VerifC08Opts{IsPlus: w.Plus, EnableOIDC: w.Plus, AppProtect: w.Plus, IngressClass: w.Class, Configurator: cnf})
+	return cnf, mgr, nil
+}
+
+func runWorld(w *World) (obs Obs) {
+	defer func() {
+		if p := recover(); p != nil {
+			obs.Panic = fmt.Sprint(p)
+		}
+	}()
+	cnf, mgr, err := newConfigurator(w)
+	if err != nil {
+		obs.Error = "templates: " + err.Error()
+		return
+	}
+	v := k8s.NewVerifC08(k8s.VerifC08Opts{IsPlus: w.Plus, EnableOIDC: w.Plus, AppProtect: w.Plus, InternalRoutes: w.InternalRoutes, IngressClass: w.Class, Configurator: cnf})
 	for i := range w.Secrets {
 		s := buildSecret(w.Secrets[i])
 		w.Secrets[i].Valid = secrets.ValidateSecret(s) == nil
@@ -693,24 +740,35 @@ func runVS(w *World, v *k8s.VerifC08, cnf *configs.Configurator, mgr *recMgr, ob
 		obs.Error = "AddOrUpdateVirtualServer: " + err.Error()
 		return
 	}
-	real := mgr.files["vs_"+vs.Namespace+"_"+vs.Name]
+	observeVS(w, vsEx, cnf, mgr.files["vs_"+vs.Namespace+"_"+vs.Name], obs, false)
+}
+
+// observeVS projects the template data a fresh generation from vsEx yields (per scope:
+// PoliciesErrorReturn, additions; SSL) and takes [live] -- the bytes the nginx.Manager holds -- as
+// the file S is evaluated on.  Static cases: live must equal the fresh generation (else the hook
+// drifted).  History cases: a difference means the live configuration is stale.
+func observeVS(w *World, vsEx *configs.VirtualServerEx, cnf *configs.Configurator, live []byte, obs *Obs, history bool) {
 	vsCfg, content, _, err := cnf.VerifC08VS(vsEx)
 	if err != nil {
 		obs.Error = "VerifC08VS: " + err.Error()
 		return
 	}
-	if !bytes.Equal(real, content) {
-		obs.Error = "hook drift: the bytes written by AddOrUpdateVirtualServer differ from those of the hook's generation"
-		return
+	if !bytes.Equal(live, content) {
+		if !history {
+			obs.Error = "hook drift: the bytes written by AddOrUpdateVirtualServer differ from those of the hook's generation"
+			return
+		}
+		obs.Stale = true
 	}
-	obs.File = string(real)
-	obs.Server = vs.Spec.Host
+	obs.File = string(live)
+	obs.Server = vsEx.VirtualServer.Spec.Host
 	s := &vsCfg.Server
 	if s.SSL != nil {
 		obs.SSL = &SSLObs{Present: true, Reject: s.SSL.RejectHandshake, Cert: s.SSL.Certificate}
 	} else {
 		obs.SSL = &SSLObs{}
 	}
+	obs.Spiffe = vsCfg.SpiffeCerts
 	obs.Scopes = append(obs.Scopes, ScopeObs{ID: "spec", Err: s.PoliciesErrorReturn != nil, Flags: serverFlags(s)})
 	idx := 0
 	take := func(id, path, shape string) {
@@ -765,38 +823,48 @@ func runIng(w *World, v *k8s.VerifC08, cnf *configs.Configurator, mgr *recMgr, o
 			last = b
 		}
 	}
-	var cfg version1.IngressNginxConfig
-	var content []byte
-	var err error
 	name := w.Ing.NS + "-" + w.Ing.Name
 	switch {
 	case len(last.Mergeable) == 1 && w.Ing.Master && len(last.Mergeable[0].Minions) == 1:
-		if _, err = cnf.AddOrUpdateMergeableIngress(last.Mergeable[0]); err != nil {
+		if _, err := cnf.AddOrUpdateMergeableIngress(last.Mergeable[0]); err != nil {
 			obs.Error = "AddOrUpdateMergeableIngress: " + err.Error()
 			return
 		}
-		cfg, content, err = cnf.VerifC08Mergeable(last.Mergeable[0])
+		obs.Accepted = true
+		observeIng(w, nil, last.Mergeable[0], cnf, mgr.files[name], obs, false)
 	case len(last.Ingresses) == 1 && !w.Ing.Master:
-		if _, err = cnf.AddOrUpdateIngress(last.Ingresses[0]); err != nil {
+		if _, err := cnf.AddOrUpdateIngress(last.Ingresses[0]); err != nil {
 			obs.Error = "AddOrUpdateIngress: " + err.Error()
 			return
 		}
-		cfg, content, err = cnf.VerifC08Ingress(last.Ingresses[0])
+		obs.Accepted = true
+		observeIng(w, last.Ingresses[0], nil, cnf, mgr.files[name], obs, false)
 	default:
 		obs.Accepted = false
-		return
 	}
-	obs.Accepted = true
+}
+
+func observeIng(w *World, ingEx *configs.IngressEx, m *configs.MergeableIngresses, cnf *configs.Configurator, live []byte, obs *Obs, history bool) {
+	var cfg version1.IngressNginxConfig
+	var content []byte
+	var err error
+	if m != nil {
+		cfg, content, err = cnf.VerifC08Mergeable(m)
+	} else {
+		cfg, content, err = cnf.VerifC08Ingress(ingEx)
+	}
 	if err != nil {
 		obs.Error = "hook generation: " + err.Error()
 		return
 	}
-	real := mgr.files[name]
-	if !bytes.Equal(real, content) {
-		obs.Error = "hook drift: the bytes written by the Configurator differ from those of the hook's generation"
-		return
+	if !bytes.Equal(live, content) {
+		if !history {
+			obs.Error = "hook drift: the bytes written by the Configurator differ from those of the hook's generation"
+			return
+		}
+		obs.Stale = true
 	}
-	obs.File = string(real)
+	obs.File = string(live)
 	obs.Server = w.Ing.Host
 	for i := range cfg.Servers {
 		s := &cfg.Servers[i]
@@ -804,6 +872,7 @@ func runIng(w *World, v *k8s.VerifC08, cnf *configs.Configurator, mgr *recMgr, o
 			continue
 		}
 		obs.SSL = &SSLObs{Present: s.SSL, Reject: s.SSLRejectHandshake, Cert: s.SSLCertificate}
+		obs.Spiffe = s.SpiffeCerts
 		a := AuthObs{Where: "server"}
 		if s.JWTAuth != nil {
 			a.JWT, a.Key = true, s.JWTAuth.Key
@@ -833,10 +902,12 @@ const ns = "default"
 
 var kinds = []string{"access", "rate", "jwt", "jwks", "basic", "imtls", "emtls", "oidc", "apikey", "waf", "wafb"}
 var scopes = []string{"server", "route", "subroute", "inherited"}
+
 // samename-*: two references with the same NAME in different namespaces in one list:
-//   samename-other-bad  [{name: p-bad} -> default/p-bad usable accessControl, {name: p-bad, namespace: other} -> the unusable one]
-//   samename-own-bad    [{name: p-bad, namespace: other} -> other/p-bad usable accessControl, {name: p-bad} -> the unusable one]
-//   samename-bad-first  [{name: p-bad} -> the unusable one, {name: p-bad, namespace: other} -> usable]
+//
+//	samename-other-bad  [{name: p-bad} -> default/p-bad usable accessControl, {name: p-bad, namespace: other} -> the unusable one]
+//	samename-own-bad    [{name: p-bad, namespace: other} -> other/p-bad usable accessControl, {name: p-bad} -> the unusable one]
+//	samename-bad-first  [{name: p-bad} -> the unusable one, {name: p-bad, namespace: other} -> usable]
 var positions = []string{"alone", "preceded", "followed", "shadowed", "samename-other-bad", "samename-own-bad", "samename-bad-first"}
 
 const otherNS = "other"
@@ -1142,10 +1213,11 @@ func tlsSecret(w *World, mode string) (bool, string) {
 	return true, "tls-x"
 }
 
-func vstlsWorld(mode string, plus bool) World {
-	w := World{Plus: plus, Class: "nginx"}
+func vstlsWorld(mode string, plus, internal bool) World {
+	w := World{Plus: plus, Class: "nginx", InternalRoutes: internal}
 	tls, name := tlsSecret(&w, mode)
-	w.VS = &VSIn{NS: ns, Name: "vs", Host: "h.example.com", TLS: tls, TLSName: name, Routes: []RouteIn{{Path: "/ctl", Shape: "pass"}}}
+	w.VS = &VSIn{NS: ns, Name: "vs", Host: "h.example.com", TLS: tls, TLSName: name, InternalRoute: internal,
+		Routes: []RouteIn{{Path: "/ctl", Shape: "pass"}}}
 	return w
 }
 
@@ -1179,7 +1251,8 @@ func authSecret(w *World, name, want, mode string) bool {
 }
 
 type ingGen struct {
-	Master, Plus, OnMinion bool
+	Master, Plus, OnMinion  bool
+	Internal                bool // controller with -enable-internal-routes and the Ingress annotated nsm.nginx.com/internal-route
 	TLSMode, Auth, AuthMode string
 }
 
@@ -1187,8 +1260,10 @@ func ingGens() []ingGen {
 	var out []ingGen
 	for _, plus := range []bool{false, true} {
 		for _, master := range []bool{false, true} {
-			for _, m := range tlsModes {
-				out = append(out, ingGen{Master: master, Plus: plus, TLSMode: m})
+			for _, internal := range []bool{false, true} {
+				for _, m := range tlsModes {
+					out = append(out, ingGen{Master: master, Plus: plus, TLSMode: m, Internal: internal})
+				}
 			}
 			for _, auth := range []string{"jwt", "basic", "both"} {
 				if !plus && auth != "basic" {
@@ -1209,9 +1284,9 @@ func ingGens() []ingGen {
 }
 
 func ingWorld(g ingGen) (World, bool) {
-	w := World{Plus: g.Plus, Class: "nginx"}
+	w := World{Plus: g.Plus, Class: "nginx", InternalRoutes: g.Internal}
 	tls, name := tlsSecret(&w, g.TLSMode)
-	in := &IngIn{NS: ns, Name: "ing", Host: "i.example.com", Master: g.Master, TLS: tls, TLSName: name, OnMinion: g.OnMinion}
+	in := &IngIn{NS: ns, Name: "ing", Host: "i.example.com", Master: g.Master, TLS: tls, TLSName: name, OnMinion: g.OnMinion, InternalRoute: g.Internal}
 	ok := true
 	if g.Auth == "jwt" || g.Auth == "both" {
 		in.JWTKey = "jwk-x"
@@ -1365,7 +1440,285 @@ func randomWorld(r *vh.Rng) World {
 
 // ---------------------------------------------------------------- main
 
+// ---------------------------------------------------------------- histories
+
+func copyWorld(w World) World {
+	c := w
+	c.Policies = append([]PolIn(nil), w.Policies...)
+	c.Secrets = append([]SecIn(nil), w.Secrets...)
+	c.AP = append([]APIn(nil), w.AP...)
+	c.Bundles = append([]string(nil), w.Bundles...)
+	return c
+}
+
+// applyEvent is the cluster state after the event.
+func applyEvent(init World, e EventIn) World {
+	w := copyWorld(init)
+	switch e.Dep {
+	case "policy":
+		var out []PolIn
+		for _, p := range w.Policies {
+			if p.NS == e.NS && p.Name == e.Name {
+				switch e.Op {
+				case "delete":
+					continue
+				case "invalid":
+					p.Invalid = true
+				case "class":
+					p.Class = "other-class"
+				}
+			}
+			out = append(out, p)
+		}
+		w.Policies = out
+	case "secret":
+		var out []SecIn
+		for _, s := range w.Secrets {
+			if s.NS == e.NS && s.Name == e.Name {
+				switch {
+				case e.Op == "delete":
+					continue
+				case e.Op == "invalid":
+					s.Invalid = true
+				case e.Op == "empty":
+					s.Empty = true
+				case strings.HasPrefix(e.Op, "retype:"):
+					s.Type = e.Op[7:]
+				}
+			}
+			out = append(out, s)
+		}
+		w.Secrets = out
+	case "appol", "aplog":
+		var out []APIn
+		for _, a := range w.AP {
+			if a.NS == e.NS && a.Name == e.Name {
+				if e.Op == "delete" {
+					continue
+				}
+				a.Invalid = true
+			}
+			out = append(out, a)
+		}
+		w.AP = out
+	}
+	return w
+}
+
+func secretOps(want string) []string {
+	other := "tls"
+	if want == "tls" {
+		other = "ca"
+	}
+	return []string{"delete", "invalid", "empty", "retype:" + other, "retype:opaque"}
+}
+
+func histCases(root *vh.Rng) []Case {
+	var out []Case
+	n := 0
+	add := func(fam string, g Gen, init World, e EventIn) {
+		n++
+		i := copyWorld(init)
+		out = append(out, Case{Fam: fam, Class: "history", Gen: &g, Init: &i, Event: &e})
+	}
+	ossKinds := map[string]bool{"access": true, "rate": true, "basic": true, "imtls": true, "emtls": true, "apikey": true}
+	for _, plus := range []bool{false, true} {
+		for ki, k := range kinds {
+			if !plus && !ossKinds[k] {
+				continue // the policy is invalid on OSS from the start
+			}
+			for si, sc := range scopes {
+				if k == "imtls" && sc != "server" {
+					continue // never usable outside spec
+				}
+				init := productWorld(root.Fork(uint64(500000+ki*10+si)), Gen{Kind: k, Scope: sc, Mode: "ok", Pos: "alone"}, plus)
+				for _, op := range []string{"delete", "invalid", "class"} {
+					add("vs", Gen{Kind: k, Scope: sc, Mode: "policy-" + op, Pos: "history"}, init, EventIn{Dep: "policy", NS: ns, Name: "p-bad", Op: op})
+				}
+				for s := 1; s <= nslots(k); s++ {
+					for _, op := range secretOps(slotType(k, s)) {
+						add("vs", Gen{Kind: k, Scope: sc, Mode: fmt.Sprintf("s%d-%s", s, op), Pos: "history"}, init,
+							EventIn{Dep: "secret", NS: ns, Name: fmt.Sprintf("p-bad-s%d", s), Op: op})
+					}
+				}
+				if k == "waf" {
+					for _, op := range []string{"delete", "invalid"} {
+						add("vs", Gen{Kind: k, Scope: sc, Mode: "appol-" + op, Pos: "history"}, init, EventIn{Dep: "appol", NS: ns, Name: "p-bad-ap", Op: op})
+						add("vs", Gen{Kind: k, Scope: sc, Mode: "logconf-" + op, Pos: "history"}, init, EventIn{Dep: "aplog", NS: ns, Name: "p-bad-lc", Op: op})
+					}
+				}
+			}
+		}
+		for _, internal := range []bool{false, true} {
+			pos := "history"
+			if internal {
+				pos = "history-internal-route"
+			}
+			for _, op := range secretOps("tls") {
+				add("vs", Gen{Kind: "tls", Scope: "server", Mode: op, Pos: pos}, vstlsWorld("ok", plus, internal), EventIn{Dep: "secret", NS: ns, Name: "tls-x", Op: op})
+				for _, master := range []bool{false, true} {
+					sc := "regular"
+					if master {
+						sc = "master"
+					}
+					wd, _ := ingWorld(ingGen{Master: master, Plus: plus, TLSMode: "ok", Internal: internal})
+					add("ing", Gen{Kind: "tls", Scope: sc, Mode: op, Pos: pos}, wd, EventIn{Dep: "secret", NS: ns, Name: "tls-x", Op: op})
+				}
+			}
+		}
+		for _, auth := range []string{"jwt", "basic"} {
+			if !plus && auth == "jwt" {
+				continue
+			}
+			sec, want := "jwk-x", "jwk"
+			if auth == "basic" {
+				sec, want = "htp-x", "htpasswd"
+			}
+			for _, g := range []ingGen{{Plus: plus}, {Plus: plus, Master: true}, {Plus: plus, Master: true, OnMinion: true}} {
+				g.TLSMode, g.Auth, g.AuthMode = "ok", auth, "ok"
+				wd, _ := ingWorld(g)
+				sc := "regular"
+				if g.Master {
+					sc = "master"
+				}
+				for _, op := range secretOps(want) {
+					add("ing", Gen{Kind: auth, Scope: sc, Mode: op, Pos: "history"}, wd, EventIn{Dep: "secret", NS: ns, Name: sec, Op: op})
+				}
+			}
+		}
+	}
+	return out
+}
+
+func runHist(c *Case) (obs Obs) {
+	defer func() {
+		if p := recover(); p != nil {
+			obs.Panic = fmt.Sprint(p)
+		}
+	}()
+	init := copyWorld(*c.Init)
+	cnf, mgr, err := newConfigurator(&init)
+	if err != nil {
+		obs.Error = "templates: " + err.Error()
+		return
+	}
+	ctl := k8s.NewVerifC08Ctl(k8s.VerifC08Opts{IsPlus: init.Plus, EnableOIDC: init.Plus, AppProtect: init.Plus, IngressClass: init.Class, Configurator: cnf}, init.InternalRoutes)
+	apply := func(kind, key string, obj interface{}) int {
+		n, err := ctl.Apply(kind, key, obj)
+		if err != nil && obs.Error == "" {
+			obs.Error = "apply " + kind + " " + key + ": " + err.Error()
+		}
+		return n
+	}
+	apKind := func(a APIn) string {
+		if a.Kind == "pol" {
+			return "appol"
+		}
+		return "aplog"
+	}
+	// 1. the cluster as it was when the resource arrived: everything usable
+	for _, s := range init.Secrets {
+		apply("secret", s.NS+"/"+s.Name, buildSecret(s))
+	}
+	for _, a := range init.AP {
+		apply(apKind(a), a.NS+"/"+a.Name, buildAP(a))
+	}
+	for _, p := range init.Policies {
+		apply("policy", p.NS+"/"+p.Name, buildPolicy(p))
+	}
+	var file, host string
+	if init.VS != nil {
+		vs, vsrs := buildVS(init.VS)
+		for _, vsr := range vsrs {
+			apply("vsr", vsr.Namespace+"/"+vsr.Name, vsr)
+		}
+		apply("vs", vs.Namespace+"/"+vs.Name, vs)
+		file, host = "vs_"+vs.Namespace+"_"+vs.Name, vs.Spec.Host
+	} else {
+		for _, ing := range buildIngresses(init.Ing) {
+			apply("ing", ing.Namespace+"/"+ing.Name, ing)
+		}
+		file, host = init.Ing.NS+"-"+init.Ing.Name, init.Ing.Host
+	}
+	pre := string(mgr.files[file])
+	obs.PreOpen = pre != "" && !strings.Contains(pre, "return 500;") && !strings.Contains(pre, "ssl_reject_handshake")
+	// 2. the event, through the real handler and the real sync function
+	e := *c.Event
+	final := applyEvent(init, e)
+	key := e.NS + "/" + e.Name
+	build := func() interface{} {
+		switch e.Dep {
+		case "policy":
+			for _, p := range final.Policies {
+				if p.NS == e.NS && p.Name == e.Name {
+					return buildPolicy(p)
+				}
+			}
+		case "secret":
+			for _, s := range final.Secrets {
+				if s.NS == e.NS && s.Name == e.Name {
+					return buildSecret(s)
+				}
+			}
+		default:
+			for _, a := range final.AP {
+				if a.NS == e.NS && a.Name == e.Name {
+					return buildAP(a)
+				}
+			}
+		}
+		return nil
+	}
+	switch {
+	case e.Op == "delete":
+		obs.Queued = append(obs.Queued, apply(e.Dep, key, nil))
+	case strings.HasPrefix(e.Op, "retype:"):
+		// the type of a Secret is immutable: delete, then create again with the other type
+		obs.Queued = append(obs.Queued, apply(e.Dep, key, nil))
+		obs.Queued = append(obs.Queued, apply(e.Dep, key, build()))
+	default:
+		obs.Queued = append(obs.Queued, apply(e.Dep, key, build()))
+	}
+	// 3. verdicts of the real code on the resulting cluster state
+	for i := range final.Secrets {
+		s := buildSecret(final.Secrets[i])
+		final.Secrets[i].Valid = secrets.ValidateSecret(s) == nil
+		final.Secrets[i].Stored = secrets.IsSupportedSecretType(s.Type)
+	}
+	for i := range final.Policies {
+		final.Policies[i].Valid, final.Policies[i].ClassOK = ctl.PolicyVerdicts(buildPolicy(final.Policies[i]))
+	}
+	for i := range final.AP {
+		final.AP[i].Usable = ctl.APUsable(apKind(final.AP[i]), final.AP[i].NS+"/"+final.AP[i].Name)
+	}
+	c.World = final
+	if obs.Error != "" {
+		return obs
+	}
+	live := mgr.files[file]
+	if final.VS != nil {
+		vsEx := ctl.CurrentVS(host)
+		if vsEx == nil {
+			return obs
+		}
+		obs.Accepted = true
+		observeVS(&final, vsEx, cnf, live, &obs, true)
+	} else {
+		ingEx, m := ctl.CurrentIngress(host)
+		if ingEx == nil && m == nil {
+			return obs
+		}
+		obs.Accepted = true
+		observeIng(&final, ingEx, m, cnf, live, &obs, true)
+	}
+	return obs
+}
+
 func runCase(c *Case) {
+	if c.Init != nil && c.Event != nil {
+		c.Obs = runHist(c)
+		return
+	}
 	c.Obs = runWorld(&c.World)
 }
 
@@ -1408,8 +1761,14 @@ func main() {
 	}
 	// 2. VirtualServer host x TLS secret state
 	for _, plus := range []bool{false, true} {
-		for _, m := range tlsModes {
-			emit(Case{Fam: "vs", Class: "vstls", Gen: &Gen{Kind: "tls", Scope: "server", Mode: m, Pos: "alone"}, World: vstlsWorld(m, plus)})
+		for _, internal := range []bool{false, true} {
+			for _, m := range tlsModes {
+				pos := "alone"
+				if internal {
+					pos = "internal-route"
+				}
+				emit(Case{Fam: "vs", Class: "vstls", Gen: &Gen{Kind: "tls", Scope: "server", Mode: m, Pos: pos}, World: vstlsWorld(m, plus, internal)})
+			}
 		}
 	}
 	// 3. Ingress regular / master x TLS secret state, JWT / basic-auth secret state
@@ -1422,6 +1781,9 @@ func main() {
 		if g.OnMinion {
 			pos = "minion"
 		}
+		if g.Internal {
+			pos = "internal-route"
+		}
 		kind := "tls"
 		mode := g.TLSMode
 		if g.Auth != "" {
@@ -1433,7 +1795,12 @@ func main() {
 		}
 		emit(Case{Fam: "ing", Class: "ing", Gen: &Gen{Kind: kind, Scope: sc, Mode: mode, Pos: pos}, World: wd})
 	}
-	// 4. random stream of longer policy lists
+	// 4. histories: the resource is rendered with every dependency usable, then ONE dependency becomes
+	//    unusable; the event goes through the real informer handler and the real sync function
+	for _, h := range histCases(root) {
+		emit(h)
+	}
+	// 5. random stream of longer policy lists
 	for i := 0; i < a.N; i++ {
 		r := root.Fork(uint64(1000000 + i))
 		emit(Case{Fam: "vs", Class: "random", World: randomWorld(r)})
